@@ -406,10 +406,11 @@ func bufferMsg(seid uint64, pdr uint16, action uint16, pkt []byte, withPkt bool,
 }
 
 type bufSess struct {
-	up   uint64
-	cp   uint64
-	pdrs []uint16
-	fars []uint32
+	up      uint64
+	cp      uint64
+	pdrs    []uint16
+	fars    []uint32
+	pdr1far uint32
 }
 
 func runBuf(c *ctx) {
@@ -511,6 +512,9 @@ func runBuf(c *ctx) {
 				}
 				pdrT = append(pdrT, fmt.Sprintf("%d:%d:%s", p, far, qt))
 				s.pdrs = append(s.pdrs, uint16(p))
+				if p == 1 {
+					s.pdr1far = far
+				}
 			}
 			all := append([]*ie.IE{ie.NewNodeID(e.ip(1), "", ""), ie.NewFSEID(cp, net.ParseIP(e.ip(1)), nil)}, ies...)
 			rsp := e.rpc(message.NewSessionEstablishmentRequest(0, 0, 0, e.nextSeq(), 0, all...), &pend)
@@ -531,12 +535,19 @@ func runBuf(c *ctx) {
 			c.emit("T buf.est %x far=%s qer=%s pdr=%s = %s", cp, strings.Join(farT, "|"), qj, strings.Join(pdrT, "|"), res)
 		}
 		est()
+		// most cases dwell on one queue (PDR 1 of the first session): several buffering periods and releases of
+		// different lengths on the SAME queue, so that what one period leaves behind meets the next
+		focus := r.chance(65)
 		for ev := 0; ev < evs; ev++ {
 			if len(sess) == 0 {
 				est()
 				continue
 			}
 			s := sess[r.intn(len(sess))]
+			dwell := focus && r.chance(55)
+			if dwell {
+				s = sess[0]
+			}
 			switch x := r.intn(100); {
 			case x < 45:
 				// buffer notifications
@@ -549,6 +560,9 @@ func runBuf(c *ctx) {
 					pdr = 4
 				}
 				action := []uint16{0x04, 0x0c, 0x04, 0x0c, 0x08, 0x02, 0x0e, 0x00}[r.intn(8)]
+				if dwell {
+					up, pdr, action = s.up, 1, []uint16{0x04, 0x0c}[r.intn(2)]
+				}
 				plen := []int{1, 20, 60, 1400}[r.intn(4)]
 				if r.chance(6) {
 					plen = 0
@@ -556,6 +570,9 @@ func runBuf(c *ctx) {
 				n := 1
 				if r.chance(25) {
 					n = 2 + r.intn(6)
+				}
+				if r.chance(8) {
+					n = 15 + r.intn(60) // a second buffering period longer than what an earlier release left behind
 				}
 				if r.chance(4) {
 					n = 500 + r.intn(120) // beyond the queue capacity
@@ -613,6 +630,11 @@ func runBuf(c *ctx) {
 				aat := "-"
 				if r.chance(90) {
 					aa = aaPool[r.intn(len(aaPool))]
+					aat = hex.EncodeToString(aa)
+				}
+				if dwell && s.pdr1far != 0 {
+					far = s.pdr1far
+					aa = [][]byte{{0x02}, {0x02}, {0x01}, {0x04}}[r.intn(4)]
 					aat = hex.EncodeToString(aa)
 				}
 				teid := int64(-1)
